@@ -7,6 +7,8 @@ for f in MANIFEST.json lean/SwimVerif.lean lean/SwimVerif/Registry.lean lean/Mai
   git checkout --ours -- "$f" 2>/dev/null || true
   git add "$f" 2>/dev/null || true
 done
+# evidence files are rewritten by every run: keep ours
+for f in $(git diff --name-only --diff-filter=U | grep '^evidence/' || true); do git checkout --ours -- "$f"; git add "$f"; done
 if git diff --name-only --diff-filter=U | grep -q .; then echo "UNRESOLVED (fix, then re-run genreg/mkmanifest and commit):"; git diff --name-only --diff-filter=U; exit 1; fi
 python3 tools/genreg.py >/dev/null
 python3 tools/mkmanifest.py
